@@ -89,7 +89,7 @@ Proof.
       cbn [to_numpy_model]. cbn [existsb]. rewrite HP, !E1. replace (n * prodZ dims <? 0) with false by nia. cbn [orb].
       replace (zlen data <? n * prodZ dims) with false by lia.
       cbn [bind nd_shape nd_dt nd_data nd_mask]. rewrite zlen_bool_mask, Hzm. replace (n * prodZ dims <? n * prodZ dims) with false by lia.
-      rewrite miss_bool_mask. rewrite !take_all by lia. unfold masked_result.
+      rewrite miss_bool_mask. rewrite (take_all data) by lia. rewrite (take_all data) by lia. unfold masked_result.
       destruct (any_true m) eqn:Ea.
       - rewrite (or_mask_no_mask m data Hm). rewrite Hzm. exists m, (blank m data). split; [reflexivity|].
         split; [unfold blank; rewrite zlen_map, zlen_zip; lia|]. split; [exact Hzm|]. rewrite <- Hzm. apply leaves_blank. exact Hm.
@@ -113,3 +113,271 @@ Proof.
         rewrite take_all by lia. reflexivity.
       * unfold nd_equiv. auto.
 Qed.
+
+(* ---------------------------------------------------------------- the value of what from_numpy builds *)
+Lemma to_list_chain : forall dims count leaf L, to_list leaf = Ok L ->
+  to_list (regular_chain dims count leaf) = nest dims count L.
+Proof.
+  induction dims as [|d ds IH]; intros count leaf L HL; [exact HL|].
+  cbn [regular_chain nest]. rewrite to_list_Regular, (IH (count * d) leaf L HL).
+  destruct (nest ds (count * d) L) as [inner|e]; [|reflexivity]. cbn [bind].
+  destruct (chunks inner d count); reflexivity.
+Qed.
+
+Lemma to_list_flat dt P data : 0 <= P -> zlen data = P -> to_list (Numpy dt [P] data) = Ok (map (leaf dt) data).
+Proof.
+  intros HP Hz. rewrite to_list_Numpy. cbn [existsb]. replace (P <? 0) with false by lia. cbn [orb].
+  assert (E1 : prodZ [P] = P) by (unfold prodZ; cbn [fold_right]; lia). rewrite E1.
+  replace (zlen data <? P) with false by lia. cbn [nest]. rewrite take_all by lia. reflexivity.
+Qed.
+
+Lemma bm_leaves dt : forall m data pre, length m = length data ->
+  mapM (fun im : Z * Z => let (i, b) := im in pick_opt (pre ++ map (leaf dt) data) (Bool.eqb (negb (b =? 0)) false) i)
+       (zip (iota_nat (zlen pre) (length m)) (bool_mask m)) =
+  Ok (map (fun p : bool * datum => if fst p then VNone else leaf dt (snd p)) (zip m data)).
+Proof.
+  induction m as [|b m IH]; intros [|x data] pre H; try discriminate H; [reflexivity|].
+  cbn [length iota_nat bool_mask map zip mapM fst snd].
+  assert (Hhead : pick_opt (pre ++ leaf dt x :: map (leaf dt) data) (Bool.eqb (negb ((if b then 1 else 0) =? 0)) false) (zlen pre) =
+                  Ok (if b then VNone else leaf dt x)).
+  { destruct b; cbn; [reflexivity|]. rewrite get_app2 by lia. rewrite Z.sub_diag. apply get_cons_0. }
+  rewrite Hhead. cbn [bind].
+  specialize (IH data (pre ++ [leaf dt x]) ltac:(cbn in H; lia)).
+  rewrite <- app_assoc in IH. cbn [app] in IH. rewrite zlen_app in IH. cbn in IH. change (zlen [leaf dt x]) with 1 in IH.
+  unfold bool_mask in IH. rewrite IH. reflexivity.
+Qed.
+
+Lemma to_list_masked_flat dt P data m : 0 <= P -> zlen data = P -> length m = length data ->
+  to_list (ByteMasked (bool_mask m) false (Numpy dt [P] data)) =
+  Ok (map (fun p : bool * datum => if fst p then VNone else leaf dt (snd p)) (zip m data)).
+Proof.
+  intros HP Hz Hm. rewrite to_list_ByteMasked, (to_list_flat dt P data HP Hz). cbn [bind].
+  pose proof (bm_leaves dt m data [] Hm) as H. cbn [app] in H. change (zlen (@nil value)) with 0 in H.
+  unfold iota. rewrite zlen_bool_mask. replace (Z.to_nat (zlen m)) with (length m) by (unfold zlen; lia). exact H.
+Qed.
+
+(** from_numpy builds a layout whose value is the array's (masked elements are None): to_numpy of such a layout agrees
+    with to_list.  FULL STATEMENT of to_numpy_is_to_list (not proved): for every layout c,
+    to_numpy_model am c = Ok y -> to_list c = nd_value y; it fails in the model for RegularArray of size 0 (the
+    length is lost), see [to_numpy_size0_refuted]. *)
+Theorem from_numpy_value_thm ra x : wf_nd x -> to_list (from_numpy_model ra x) = nd_value x.
+Proof.
+  destruct x as [dt shape data mask]. unfold wf_nd, from_numpy_model, nd_value, nd_leaves. cbn [nd_shape nd_data nd_mask nd_dt].
+  destruct shape as [|n dims]; [intros []|]. intros (Hn & HF & Hz & Hm).
+  pose proof (prodZ_pos dims HF) as Hp. assert (HP : 0 <= prodZ (n :: dims)) by (rewrite prodZ_cons; nia).
+  destruct mask as [m|].
+  - apply to_list_chain. apply to_list_masked_flat; assumption.
+  - destruct ra.
+    + apply to_list_chain. apply to_list_flat; assumption.
+    + rewrite to_list_Numpy, (existsb_neg_pos n dims Hn HF). replace (zlen data <? prodZ (n :: dims)) with false by lia.
+      rewrite take_all by lia. reflexivity.
+Qed.
+
+Lemma nd_equiv_value x y : nd_equiv y x -> nd_value y = nd_value x.
+Proof. intros (Hs & _ & Hl). unfold nd_value. rewrite Hs, Hl. reflexivity. Qed.
+
+Theorem to_numpy_is_to_list_partial_thm ra x y : wf_nd x ->
+  to_numpy_model true (from_numpy_model ra x) = Ok y -> nd_value y = to_list (from_numpy_model ra x).
+Proof.
+  intros Hwf Hy. destruct (numpy_roundtrip_thm ra x Hwf) as (y' & Hy' & He). rewrite Hy in Hy'. injection Hy' as <-.
+  rewrite (nd_equiv_value x y He). symmetry. apply from_numpy_value_thm. exact Hwf.
+Qed.
+
+(* and back: from_numpy(to_numpy(from_numpy x)) has the value of from_numpy x *)
+Example numpy_roundtrip_ex :
+  let x := mk_nd DInt16 [2; 3] [DZ 1; DZ 2; DZ 3; DZ 4; DZ 5; DZ 6] (Some [false; true; false; false; false; true]) in
+  wf_nd x /\ to_list (from_numpy_model false x) = Ok [VList [VNum (DZ 1); VNone; VNum (DZ 3)]; VList [VNum (DZ 4); VNum (DZ 5); VNone]]
+  /\ exists y, to_numpy_model true (from_numpy_model false x) = Ok y /\ nd_mask y = nd_mask x /\ nd_data y <> nd_data x.
+Proof.
+  cbv zeta. split; [cbn; repeat split; try lia; repeat constructor; lia|]. split; [vm_compute; reflexivity|].
+  eexists. split; [vm_compute; reflexivity|]. split; [reflexivity|]. discriminate.
+Qed.
+
+(** the pinned to_numpy loses the length of a RegularArray of size 0: [[], [], []] becomes an array of shape (0, 0) *)
+Theorem to_numpy_size0_refuted_thm :
+  exists c y, Valid None c /\ to_numpy_model true c = Ok y /\ to_list c = Ok [VList []; VList []; VList []] /\ nd_value y = Ok [].
+Proof.
+  exists (Regular (Numpy DInt64 [0] []) 0 3). eexists.
+  split; [apply validity_exact_gen; vm_compute; reflexivity|]. split; [vm_compute; reflexivity|]. split; vm_compute; reflexivity.
+Qed.
+
+(* ================================================================================================================ *)
+(** Arrow: the two buffer-level steps of to_arrow *)
+
+(* (1) offsets re-based to zero describe the same lists *)
+Lemma cut_ne_d {A} (vs : list A) o : o <> [] -> cut vs o = mapM (cut1 vs) (pairs o).
+Proof. destruct o; [congruence|reflexivity]. Qed.
+Lemma drop_drop_d {A} (l : list A) a b : 0 <= a -> 0 <= b -> drop a (drop b l) = drop (b + a) l.
+Proof.
+  intros Ha Hb. unfold drop. replace (Z.to_nat (b + a)) with (Z.to_nat b + Z.to_nat a)%nat by lia.
+  generalize (Z.to_nat a) (Z.to_nat b). clear. intros n m. revert l. induction m as [|m IH]; intros l; [reflexivity|].
+  destruct l as [|x l]; [destruct n; reflexivity|]. cbn [skipn Nat.add]. apply IH.
+Qed.
+Lemma cut1_shift {A} (vs : list A) o0 a b : 0 <= o0 -> (a = b \/ o0 <= a) ->
+  cut1 (drop o0 vs) (a - o0, b - o0) = cut1 vs (a, b).
+Proof.
+  intros H0 Hab. unfold cut1. replace (a - o0 =? b - o0) with (a =? b) by lia. destruct (a =? b) eqn:E; [reflexivity|].
+  assert (Ha : o0 <= a) by lia. unfold slice.
+  assert (Hz : zlen (drop o0 vs) = Z.max 0 (zlen vs - o0)) by (unfold drop, zlen; rewrite skipn_length; lia).
+  destruct ((0 <=? a) && (a <=? b) && (b <=? zlen vs)) eqn:E1.
+  - replace ((0 <=? a - o0) && (a - o0 <=? b - o0) && (b - o0 <=? zlen (drop o0 vs))) with true by lia.
+    f_equal. replace (b - o0 - (a - o0)) with (b - a) by lia. f_equal. rewrite drop_drop_d by lia. f_equal. lia.
+  - replace ((0 <=? a - o0) && (a - o0 <=? b - o0) && (b - o0 <=? zlen (drop o0 vs))) with false by lia. reflexivity.
+Qed.
+Lemma pairs_map_sub o o0 : pairs (map (fun x => x - o0) o) = map (fun ab : Z * Z => (fst ab - o0, snd ab - o0)) (pairs o).
+Proof.
+  induction o as [|a o IH]; [reflexivity|]. destruct o as [|b o]; [reflexivity|].
+  change (map (fun x => x - o0) (a :: b :: o)) with ((a - o0) :: map (fun x => x - o0) (b :: o)).
+  change (pairs (a :: b :: o)) with ((a, b) :: pairs (b :: o)). cbn [map fst snd]. rewrite <- IH. reflexivity.
+Qed.
+
+(** The lists described by offsets o over a content are the lists described by the offsets re-based to zero
+    (o - o[0]) over the content from o[0] on: what compact_offsets64 / toListOffsetArray64(true) hand to Arrow. *)
+Theorem arrow_offsets_rebase_spec_thm (child : list value) o o0 rest :
+  o = o0 :: rest -> 0 <= o0 -> Forall (fun ab : Z * Z => fst ab = snd ab \/ o0 <= fst ab) (pairs o) ->
+  arrow_list (rebase o) (drop o0 child) = arrow_list o child.
+Proof.
+  intros Eo H0 HF. unfold arrow_list, rebase. rewrite Eo. rewrite <- Eo. f_equal.
+  rewrite (cut_ne_d child o) by (rewrite Eo; discriminate).
+  rewrite (cut_ne_d _ (map (fun x => x - o0) o)) by (rewrite Eo; discriminate).
+  rewrite pairs_map_sub, mapM_map. apply mapM_ext_in. intros [a b] Hin. cbn [fst snd].
+  rewrite Forall_forall in HF. apply cut1_shift; [exact H0|]. exact (HF (a, b) Hin).
+Qed.
+
+(* ListArray / RegularArray: compact_offsets64 + broadcast_tooffsets64 = cumulative lengths over the concatenated lists *)
+Lemma cut1_zlen_d {A} (vs : list A) ab l : cut1 vs ab = Ok l -> zlen l = snd ab - fst ab.
+Proof.
+  destruct ab as [a b]. unfold cut1. cbn [fst snd]. destruct (a =? b) eqn:E.
+  - intros H. inversion H. rewrite zlen_nil. lia.
+  - apply slice_zlen.
+Qed.
+Lemma cuts_lens_d {A} (vs : list A) bs ls : mapM (cut1 vs) bs = Ok ls -> map (fun ab : Z * Z => snd ab - fst ab) bs = map zlen ls.
+Proof.
+  revert ls. induction bs as [|ab bs IH]; intros ls H; cbn [mapM] in H.
+  - inversion H. reflexivity.
+  - apply bind_Ok in H as (l & Hl & H). apply bind_Ok in H as (ls' & Hls' & H). inversion H; subst.
+    cbn [map]. rewrite (IH _ Hls'), (cut1_zlen_d _ _ _ Hl). reflexivity.
+Qed.
+Lemma pairs_offsets_d a b l : pairs (a :: offsets_from b l) = (a, b) :: pairs (offsets_from b l).
+Proof. destruct l; reflexivity. Qed.
+Lemma cut_concat_gen_d {A} (Ls : list (list A)) : forall pre,
+  mapM (cut1 (pre ++ concat Ls)) (pairs (offsets_from (zlen pre) (map zlen Ls))) = Ok Ls.
+Proof.
+  induction Ls as [|L Ls IH]; intros pre; cbn [map offsets_from concat]; [reflexivity|].
+  rewrite pairs_offsets_d. cbn [mapM].
+  assert (Hc : cut1 (pre ++ L ++ concat Ls) (zlen pre, zlen pre + zlen L) = Ok L).
+  { unfold cut1. pose proof (zlen_nonneg L). pose proof (zlen_nonneg pre).
+    destruct (zlen pre =? zlen pre + zlen L) eqn:E.
+    - f_equal. symmetry. apply zlen_0_nil. lia.
+    - rewrite slice_ok by (rewrite ?zlen_app; pose proof (zlen_nonneg (concat Ls)); lia).
+      rewrite drop_app_exact by reflexivity. replace (zlen pre + zlen L - zlen pre) with (zlen L) by ring.
+      rewrite take_app_exact by reflexivity. reflexivity. }
+  rewrite Hc. cbn [bind]. specialize (IH (pre ++ L)). rewrite <- app_assoc, zlen_app in IH. rewrite IH. reflexivity.
+Qed.
+
+(** the lists of a ListArray (starts, stops) over a content are the lists of the zero-based cumulative offsets over
+    their concatenation *)
+Theorem arrow_offsets_compact_spec_thm (child : list value) s e ls :
+  cut2 child s e = Ok ls -> arrow_list (compact_offsets s e) (concat ls) = Ok (map VList ls).
+Proof.
+  unfold cut2. destruct (zlen e <? zlen s); [discriminate|]. intros H.
+  unfold arrow_list, compact_offsets. rewrite (cuts_lens_d child _ ls H).
+  rewrite cut_ne_d by (destruct (map zlen ls); discriminate).
+  pose proof (cut_concat_gen_d ls []) as HC. cbn [app] in HC. change (zlen (@nil value)) with 0 in HC. rewrite HC. reflexivity.
+Qed.
+
+Example arrow_offsets_ex :
+  let child := [VNum (DZ 9); VNum (DZ 1); VNum (DZ 2); VNum (DZ 3)] in
+  rebase [1; 3; 3; 4] = [0; 2; 2; 3] /\
+  arrow_list (rebase [1; 3; 3; 4]) (drop 1 child) = arrow_list [1; 3; 3; 4] child /\
+  arrow_list [1; 3; 3; 4] child = Ok [VList [VNum (DZ 1); VNum (DZ 2)]; VList []; VList [VNum (DZ 3)]] /\
+  compact_offsets [3; 0; 1] [4; 0; 3] = [0; 1; 1; 3].
+Proof. vm_compute. repeat split. Qed.
+
+(* (2) validity bitmaps: least significant bit first, zero padded to whole bytes *)
+Lemma pack8_scale bits k w : pack8 bits k w = w * pack8 bits k 1.
+Proof.
+  revert bits w. induction k as [|k IH]; intros bits w; destruct bits as [|b bs]; cbn [pack8]; try ring.
+  rewrite (IH bs (2 * w)), (IH bs (2 * 1)). destruct b; ring.
+Qed.
+Lemma pack8_step b bs k : pack8 (b :: bs) (S k) 1 = 2 * pack8 bs k 1 + Z.b2z b.
+Proof. cbn [pack8]. rewrite (pack8_scale bs k (2 * 1)). destruct b; cbn [Z.b2z]; ring. Qed.
+Lemma pack8_testbit : forall k bits j, (j < k)%nat -> Z.testbit (pack8 bits k 1) (Z.of_nat j) = nth j bits false.
+Proof.
+  induction k as [|k IH]; intros bits j Hj; [lia|]. destruct bits as [|b bs].
+  - cbn [pack8]. rewrite Z.testbit_0_l. destruct j; reflexivity.
+  - rewrite pack8_step. destruct j as [|j].
+    + cbn [Z.of_nat nth]. apply Z.testbit_0_r.
+    + rewrite Nat2Z.inj_succ, Z.testbit_succ_r by lia. cbn [nth]. apply IH. lia.
+Qed.
+Lemma pack8_testbit_hi bits k j : (k <= j)%nat -> Z.testbit (pack8 bits k 1) (Z.of_nat j) = false.
+Proof.
+  revert bits j. induction k as [|k IH]; intros bits j Hj; [destruct bits; cbn [pack8]; apply Z.testbit_0_l|].
+  destruct bits as [|b bs]; [cbn [pack8]; apply Z.testbit_0_l|]. rewrite pack8_step. destruct j as [|j]; [lia|].
+  rewrite Nat2Z.inj_succ, Z.testbit_succ_r by lia. apply IH. lia.
+Qed.
+
+Lemma pack_fuel_cons f bits : bits <> [] -> pack_lsb_fuel (S f) bits = pack8 bits 8 1 :: pack_lsb_fuel f (skipn 8 bits).
+Proof. destruct bits; [congruence|reflexivity]. Qed.
+Lemma skipn_add {A} (l : list A) n m : skipn n (skipn m l) = skipn (m + n) l.
+Proof.
+  revert l. induction m as [|m IH]; intros l; [reflexivity|]. destruct l as [|x l]; [destruct n; reflexivity|].
+  cbn [skipn Nat.add]. apply IH.
+Qed.
+Lemma nth_skipn_d {A} (l : list A) n j d : nth j (skipn n l) d = nth (n + j) l d.
+Proof.
+  revert l. induction n as [|n IH]; intros l; [reflexivity|]. destruct l as [|x l]; [destruct j; reflexivity|].
+  cbn [skipn Nat.add nth]. apply IH.
+Qed.
+Lemma pack_fuel_get : forall q fuel bits, (8 * q < length bits)%nat -> (length bits <= 8 * fuel)%nat ->
+  get (pack_lsb_fuel fuel bits) (Z.of_nat q) = Ok (pack8 (skipn (8 * q) bits) 8 1).
+Proof.
+  induction q as [|q IH]; intros fuel bits Hq Hf.
+  - destruct fuel as [|f]; [lia|]. rewrite pack_fuel_cons by (intros ->; cbn in Hq; lia). apply get_cons_0.
+  - destruct fuel as [|f]; [lia|]. rewrite pack_fuel_cons by (intros ->; cbn in Hq; lia).
+    rewrite Nat2Z.inj_succ. unfold Z.succ. rewrite get_cons_S by lia.
+    rewrite IH; [|rewrite skipn_length; lia|rewrite skipn_length; lia].
+    rewrite skipn_add. f_equal. f_equal. f_equal. lia.
+Qed.
+
+(** Bit i of the least-significant-bit-first bitmap packed from a byte mask is the validity of element i, for masks of
+    any length (not only multiples of 8); the padding bits of the last byte are zero. *)
+Theorem bytemask_to_bitmap_spec_thm bits i : 0 <= i < zlen bits ->
+  bitmap_bit (pack_lsb bits) i = Ok (nth (Z.to_nat i) bits false).
+Proof.
+  intros Hi. unfold bitmap_bit, pack_lsb. unfold zlen in Hi.
+  pose proof (Z.div_mod i 8 ltac:(lia)) as Hdm. pose proof (Z.mod_pos_bound i 8 ltac:(lia)) as Hmod.
+  assert (Hq0 : 0 <= i / 8) by (apply Z.div_pos; lia).
+  rewrite <- (Z2Nat.id (i / 8)) by lia.
+  rewrite pack_fuel_get; [|lia|lia]. cbn [bind]. f_equal.
+  rewrite <- (Z2Nat.id (i mod 8)) by lia. rewrite pack8_testbit by lia.
+  rewrite nth_skipn_d. f_equal. lia.
+Qed.
+Theorem bitmap_padding_zero_thm bits i : 0 <= i -> i / 8 = (zlen bits - 1) / 8 -> zlen bits <= i -> 0 < zlen bits ->
+  bitmap_bit (pack_lsb bits) i = Ok false.
+Proof.
+  intros Hi Hq Hge Hpos. unfold bitmap_bit, pack_lsb. unfold zlen in *.
+  pose proof (Z.div_mod i 8 ltac:(lia)) as Hdm. pose proof (Z.mod_pos_bound i 8 ltac:(lia)) as Hmod.
+  pose proof (Z.div_mod (Z.of_nat (length bits) - 1) 8 ltac:(lia)) as Hdm2.
+  pose proof (Z.mod_pos_bound (Z.of_nat (length bits) - 1) 8 ltac:(lia)) as Hmod2.
+  assert (Hq0 : 0 <= i / 8) by (apply Z.div_pos; lia).
+  rewrite <- (Z2Nat.id (i / 8)) by lia.
+  rewrite pack_fuel_get; [|lia|lia]. cbn [bind]. f_equal.
+  rewrite <- (Z2Nat.id (i mod 8)) by lia.
+  set (rest := skipn (8 * Z.to_nat (i / 8)) bits).
+  assert (Hr : (length rest <= Z.to_nat (i mod 8))%nat) by (unfold rest; rewrite skipn_length; lia).
+  clearbody rest. clear - Hr Hmod.
+  assert (G : forall k bits j, (length bits <= j)%nat -> Z.testbit (pack8 bits k 1) (Z.of_nat j) = false).
+  { induction k as [|k IH]; intros bits j Hj; [destruct bits; cbn [pack8]; apply Z.testbit_0_l|].
+    destruct bits as [|b bs]; [cbn [pack8]; apply Z.testbit_0_l|]. rewrite pack8_step. cbn [length] in Hj.
+    destruct j as [|j]; [lia|]. rewrite Nat2Z.inj_succ, Z.testbit_succ_r by lia. apply IH. lia. }
+  apply G. exact Hr.
+Qed.
+
+Example bytemask_to_bitmap_ex :
+  (* eleven elements, valid = [1 0 1 1 0 0 0 1 | 1 1 0] -> bytes 141 (10001101b), 3 (011b) *)
+  let bits := [true; false; true; true; false; false; false; true; true; true; false] in
+  pack_lsb bits = [141; 3] /\ bitmap_bit (pack_lsb bits) 9 = Ok true /\ bitmap_bit (pack_lsb bits) 10 = Ok false /\
+  bitmap_bit (pack_lsb bits) 13 = Ok false /\
+  arrow_nullable (pack_lsb [true; false; true]) 3 [VNum (DZ 7); VNum (DZ 8); VNum (DZ 9)] = Ok [VNum (DZ 7); VNone; VNum (DZ 9)].
+Proof. vm_compute. repeat split. Qed.
